@@ -69,7 +69,9 @@ class History(object):
         self.world = SimWorld(watchers=watchers,
                               arbiter_opts=case.get("arbiter") or {},
                               tape=case.get("tape") or [],
-                              default_beh=case.get("default_beh"))
+                              default_beh=case.get("default_beh"),
+                              periodic=case.get("periodic"),
+                              mode=case.get("mode", "daemon"))
         self._wref[0] = self.world
         self.reqs = {}            # op index -> Req
         self.op_times = []
